@@ -149,7 +149,9 @@ Rank(tag) == CASE tag \in {"zero", "neg", "third"} -> 0
 NTypeForms ==
    {f \in [base : {"int", "real"}, lo : LoTags("real"), hi : HiTags("real"), pos : {"fluent", "sig", "param", "var"}] :
        /\ f.lo \in LoTags(f.base) /\ f.hi \in HiTags(f.base)
-       /\ (f.lo = "none" \/ Rank(f.lo) <= Rank(f.hi))}
+       /\ (f.lo = "none" \/ Rank(f.lo) <= Rank(f.hi))
+       \* a fluent parameter must have a finite domain (and == enumerates it): small bounded integers only
+       /\ (f.pos = "sig" => f.base = "int" /\ f.lo \in {"zero", "neg"} /\ f.hi = "seven")}
 NTypeCase(f) ==
    LET T == TNum(f.base, Bound(f.lo), Bound(f.hi))
        P == CASE f.pos = "fluent" ->
